@@ -10,7 +10,7 @@ CHECKS = {
  "C01": ("exploration", "runtime monitoring: offline exactly-once/order/fidelity checker over send and receive logs (unique ids) of the real Inbox and engine under injected yields; race detector on the engine runs",
          "Held on every execution produced: PRNG scenarios over inbox size, senders, backlog geometry (ring growth, wrap, 4096 batch split), baton chains and actor-to-actor sends; a lost message is decided on state (final marker + kick), never on time.",
          "trusts the Go race detector and the harness's own send log; reaches only the schedules the injected yields produce", "DESIGN.md §4 C01"),
- "C02": ("exploration", "runtime monitoring: Go race detector over deliberately unsynchronised receiver/processer state + in-flight overlap counter, with yields injected at every procStatus/ring operation through a build-time import overlay",
+ "C02": ("exploration", "runtime monitoring: Go race detector over deliberately unsynchronised receiver/processer state + in-flight overlap counter, with yields injected at every procStatus/ring operation through a build-time import overlay; directed workloads: sustained non-empty inbox, successor spawned from the Stopped handler, parent stopped while a child is inside a long Receive",
          "No overlapping or racing Receive/Invoke in the executions produced (thousands of contended hand-offs, crashes/restarts and stop callers included). Detection power measured on a load-then-store mutant of schedule().",
          "race detector sees only executed accesses; hooks in -race runs are synchronisation-free", "DESIGN.md §4 C02"),
  "C03": ("exploration", "runtime monitoring: exact trace of the inbox's synchronisation operations (shimmed atomics/ring) + state oracle at goroutine-quiescence (invoked == accepted); window-hit counters as evidence; engine workloads (actors started at a later attempt, a crowd of actors all inside Receive) where a measured stall is decided by a kick message (lost wake-up) and by goroutine-dump quiescence (atRest)",
@@ -46,10 +46,10 @@ CHECKS = {
  "C13": ("exploration", "runtime monitoring: recording middleware (enter / deferred exit) interleaved with the receiver log, checked for well nested blocks on all delivery paths of the scripted scenarios; a filtering middleware whose swallowed deliveries must end at the filter",
          "Every delivery observed (user, Initialized, Started, Stopped; normal, crash, restart, replay, max-restarts, shutdown) was wrapped exactly once by each layer in order.",
          "does not demand a nil sender on lifecycle deliveries", "DESIGN.md §4 C13"),
- "C14": ("exploration", "runtime monitoring: differential test against a slice model, linearizability checking of recorded concurrent histories with porcupine, race detector + conservation/order checks under stress",
+ "C14": ("exploration", "runtime monitoring: differential test against a slice model, linearizability checking of recorded concurrent histories with porcupine, race detector + conservation/order checks under stress, and a never-empty workload in which every one of M single pops must report true",
          "Sequential results exact on all generated sequences with every head position at growth constructed; thousands of short concurrent histories linearizable w.r.t. a FIFO model (porcupine Ok); stress runs race-free and conserving.",
          "porcupine timeouts are counted as unknown (run inconclusive above 5%); New(0)/PopN(<=0) out of scope", "DESIGN.md §4 C14"),
- "C15": ("exploration", "runtime monitoring: the real streamWriter.Invoke and streamReader.Receive driven with capturing/feeding fake streams over the marshalled bytes, recording Processers in the receiving registry; plus the same traffic end-to-end over loopback TCP in a private network namespace",
+ "C15": ("exploration", "runtime monitoring: the real streamWriter.Invoke and streamReader.Receive driven with capturing/feeding fake streams over the marshalled bytes, recording Processers in the receiving registry, several connections read side by side by one reader; plus the same traffic end-to-end over loopback TCP in a private network namespace",
          "Every generated batch (mixed targets, senders incl. none/equal/split-ambiguous, five payload types, unserialisable items at PRNG positions) was delivered as the input list minus the unserialisable items, in order, with payload and sender intact; no panic; the node survived.",
          "internal mode depends on a verif-only export file in package remote (falls back to end-to-end only if it no longer compiles)", "DESIGN.md §4 C15"),
  "C16": ("exploration", "runtime monitoring with hostile-input generation: structured malformed envelopes and mutated/random byte strings through the real decoder and streamReader.Receive (panic = violation, deliveries checked against the envelope's own valid indices); a hostile dRPC client and raw TCP garbage against a live node in a child process, then liveness probes",
@@ -64,7 +64,7 @@ CHECKS = {
  "C17": ("exploration", "runtime monitoring over real loopback TCP (public API only, child processes in private network namespaces): exactly-once/order/sender oracles on recorded deliveries in up phases, event-stream monitors for RemoteUnreachableEvent and stream dead letters in down phases, peer restarts on the same address (also behind a bare listener that goes away, with subscribers re-sending on the event), CA-verified TLS peers, listener probes",
          "All up phases delivered exactly once, in per-(sender,target) order, with senders and correlated replies; every down phase reported the peer unreachable and dead-lettered exactly the burst; after each peer restart fresh sends got through (also with senders running across the peer's death and delays injected before registry writes); Stop closed the listener; double Start/Stop harmless.",
          "few down phases per run (3 s each); in-flight messages at connection loss not judged", "DESIGN.md §4 C17"),
- "C20": ("exploration", "runtime monitoring of the real SelfManaged provider (zeroconf on, private network namespace): handshake replies captured by a probe actor, agent view and restart events compared with a list model after every step; unreachable reports injected through the event stream and flushed with a sentinel member",
+ "C20": ("exploration", "runtime monitoring of the real SelfManaged provider (zeroconf on, private network namespace): handshake replies captured by a probe actor, agent view and restart events compared with a list model after every step; unreachable reports injected through the event stream and flushed with a sentinel member; the provider runs behind a receiver that can be parked so that messages queue up in its inbox in a chosen order",
          "After every step of every generated sequence the provider's list (as answered to handshakes), the agent's view and the model agreed; reports for non-members changed nothing; the provider never restarted.",
          "member hosts are listening remotes; hosts unique; own address never reported", "DESIGN.md §4 C20"),
 }
